@@ -666,3 +666,63 @@ def check_pool_forward(model, R, P_):
                 why.append('output layout %r' % (out,))
         R.ob(P_ + '.PAD', f.qualname, 'pad %s, %s over the whole window, layout (N, C, windows..)' % ('-inf' if want_pad == 'ninf' else 0, red), ok and not why,
              'documented pooling: %s' % why[:3], f.loc)
+
+
+def check_index_axes(model, R, P_):
+    """get_im2col_indices evaluated with dependency-carrying atoms: the ROW index matrix is built from the row geometry (kernel / dilation / stride / count of axis 0) and
+    the COLUMN index matrix from the column geometry - dilation and stride of the other axis do not occur in it (a swapped subscript is invisible for square geometry)"""
+    R.rule(P_ + '.INDEX-AXES', 'in get_im2col_indices the row indices depend on dilation[0] and stride[0] and not on dilation[1] / stride[1]; the column indices the other way round '
+                              '[evaluated with dependency-carrying terms]', floor=2)
+    import re
+    f = model.func(CT + '.get_im2col_indices')
+
+    def leaves(v, acc):
+        if isinstance(v, P):
+            for m in v.t:
+                for a_, _ in m:
+                    for x in re.findall(r'(?:dilation|stride|step|kernel_size|padding)\[\d\]', a_):
+                        acc.add(x)
+        elif isinstance(v, (list, tuple, Vec)):
+            for x in v:
+                leaves(x, acc)
+        elif hasattr(v, 'text'):
+            for x in re.findall(r'(?:dilation|stride|step|kernel_size|padding)\[\d\]', str(v.text)):
+                acc.add(x)
+        return acc
+
+    def hook(pe, name, e, args, kw, env, func, depth):
+        n = name or ''
+        if n.endswith('.get_conv2d_output_size'):
+            return (A('lH'), A('lW'))          # the window counts are opaque here: their formula is decided by OUTSIZE; only the index ARITHMETIC is looked at
+        if n in ('numpy.arange', 'numpy.repeat', 'numpy.tile', 'numpy.reshape', 'numpy.add.outer', 'numpy.array', 'numpy.asarray') or \
+                (isinstance(e.func, ast.Attribute) and e.func.attr in ('reshape', 'astype', 'ravel', 'flatten') and not n.startswith('synapgrad')):
+            acc = set()
+            for a_ in list(args) + list(kw.values()):
+                leaves(a_, acc)
+            if isinstance(e.func, ast.Attribute) and not n.startswith('numpy.'):
+                leaves(pe.expr(e.func.value, env, func, depth), acc)
+            return A('idx{%s}' % ','.join(sorted(acc)))
+        return NotImplemented
+    try:
+        args = dict(geom_args(f))
+        first = f.pos_params[0]
+        args[first] = NCHW
+        outs = PE(model, call_hook=hook, atoms_not_none=True, default_pred=lambda t: False if ('<= 0' in t or '< 1' in t or '== 0' in t) else None).paths(f, args, max_paths=64)
+    except Incomplete as u:
+        R.incomplete_at(P_ + '.INDEX-AXES', f.qualname, str(u))
+        return
+    rets = [o for o in outs if o.kind == 'return' and isinstance(o.value, (tuple, list)) and len(o.value) == 3]
+    if not rets:
+        R.incomplete_at(P_ + '.INDEX-AXES', f.qualname, 'no path returns the (k, i, j) index triple: %s' % [o.kind for o in outs])
+        return
+    stride = 'stride' if 'stride' in f.params else 'step'
+    for slot, axis, what in ((1, 0, 'row'), (2, 1, 'column')):
+        bad = []
+        for o in rets:
+            got = leaves(o.value[slot], set())
+            need = {'dilation[%d]' % axis, '%s[%d]' % (stride, axis)}
+            forbid = {'dilation[%d]' % (1 - axis), '%s[%d]' % (stride, 1 - axis)}
+            if not need <= got or (got & forbid):
+                bad.append('depends on %s' % sorted(got))
+        R.ob(P_ + '.INDEX-AXES', f.qualname, '%s indices: dilation / stride of axis %d only' % (what, axis), not bad,
+             'the %s index matrix must be built from dilation[%d] and %s[%d] (and not from the other axis): %s' % (what, axis, stride, axis, bad[:1]), f.loc)
